@@ -161,6 +161,33 @@ CHECKS = {
 }
 
 
+# behaviour added to the checks after the first version (see DESIGN.md sections 9 and 12)
+ADDED = {
+    "C01": "Hand-enumerated families close gaps of the grammar: calls WITH arguments whose receiver and arguments live at different loop depths, every expression form "
+           "mixing an outer and an inner loop variable, explicit Aggregate(init, lambda) with computed initial values and closures, Count over sequences of sequences, "
+           "two partial values in one row, nested flattenings, tuples / lists / dictionaries carried between Selects - each a full product of small menus under 8-10 consumers.",
+    "C02": "The argument-scope family and injected constructor / initialize lines with repeated texts are included.",
+    "C03": "Columns typed by the backend's own default method table are also checked after earlier (successful, failed) translations on the same executor.",
+    "C04": "Also: negative and computed indices (a negative index may give Python's from-the-end value or fail loudly, never anything else), three-operand guards, "
+           "and a sequence shared between guard and guarded operation through a lambda parameter.",
+    "C05": "The event set also holds events that LACK a collection (the job must fail there, not carry on with what it had filled).",
+    "C07": "The event alphabet also has again(i, q) - the caller hands the very same ast object to the library once more - and apply(i, q) - a translation that is started "
+           "(client-side passes) and never written.",
+    "C08": "Also: and / or chains of 3-5 operands (flat and nested either way), metadata whose sequence values are tuples vs lists, samples of the hand-enumerated families with "
+           "all variants, and every program of those families and of C18's literal x position grid through the qastle wire.",
+    "C09": "Also: every must-refuse whole-query case after an earlier query on the same / another executor declared the missing name; lambda arity; surplus / missing "
+           "arguments of built-in, declared and plug-in functions; a wrong-kind value for every key of every metadata type; constructs at positions nothing downstream uses are "
+           "classified by a semantic dead-position test.",
+    "C10": "Also: declarations overriding a backend default (by value, pointer, pointer to pointer), const-qualified declarations, identical double declarations.",
+    "C11": "Also: parameter-less and two-parameter methods, a parameter-less function, and earlier queries on the same executor that supplied other code under the same name.",
+    "C12": "Also: a float-typed (32-bit) operand on either side of the function result, and the function of a First() value at event level.",
+    "C13": "Also: aggregates whose initial value is another aggregate's (integer) result.",
+    "C14": "Also: earlier queries with blocks on the same executor (applied only / translated / failed), and include paths equal up to letter case.",
+    "C17": "Also: a container that fails after it has put its result into /results, and earlier executions on another / on the very same dataset object (with and without docker metadata).",
+}
+for _k, _v in ADDED.items():
+    CHECKS[_k]["text"] += " " + _v
+
 def main():
     props = [json.loads(l) for l in (VERIF / "properties.jsonl").read_text().splitlines() if l.strip()]
     checks = []
